@@ -384,6 +384,26 @@ def d5_gc_and_copy(ctx):
                    "target <- %s ; latch <- %s" % (show(t, f.names)[:120] if t else None, show(l, f.names)[:120] if l else None), key="D5:shell-copy-source")
 
 
+def d5b_counters_rebased_every_call(ctx):
+    """"including counter resets after reconnect": the loss window is fed with per-tick deltas of cumulative counters; a counter that
+    went backwards gives a saturated zero delta, which is harmless only because the remembered totals follow the counters on *every*
+    call - on every path to the return both are re-based to the arguments (an early return in front of the re-base lets the old
+    totals survive a reset, and the first NAK past the old total is then read as a 100 % loss window)."""
+    f = ctx.fn(LCS + "::observe_traffic", "D5")
+    if not f:
+        return
+    fa = ctx.fa(f)
+    cfg = ctx.cfg(f)
+    for fld, par in (("prev_bytes_sent_total", 2), ("prev_nak_total", 3)):
+        sites = [bb for (bb, si, s_) in field_stores(f, LCS, fld) if fa.val_rvalue(s_["rv"], (bb, si)) == ("param", par)]
+        others = [bb for (bb, si, s_) in field_stores(f, LCS, fld) if fa.val_rvalue(s_["rv"], (bb, si)) != ("param", par)]
+        ok = bool(sites) and not others and not cfg.returns_reachable_avoiding(set(sites))
+        ctx.chk.ob("D5", "observe_traffic re-bases %s to the counter it was given on every path to its return" % fld, ok,
+                   "%d store site(s), %d other store(s)" % (len(sites), len(others)), key="D5:counters-rebased-every-call:%s" % fld)
+    ctx.WHO_WRITES("D5", LCS, "prev_bytes_sent_total", {LCS + "::observe_traffic"}, floor=1, allow_agg_in={"<" + LCS + " as core::default::Default>::default"})
+    ctx.WHO_WRITES("D5", LCS, "prev_nak_total", {LCS + "::observe_traffic"}, floor=1, allow_agg_in={"<" + LCS + " as core::default::Default>::default"})
+
+
 def d6_seed_once(ctx):
     fn = ctx.fn(TICK, "D6")
     if not fn:
@@ -470,7 +490,7 @@ def _symwalk(e):
                 yield y
 
 
-RULES = [d1_range, d2_floor_before_rtt, d3_direction, d4_loss_latch, d5_gc_and_copy, d6_seed_once]
+RULES = [d1_range, d2_floor_before_rtt, d3_direction, d4_loss_latch, d5_gc_and_copy, d5b_counters_rebased_every_call, d6_seed_once]
 
 
 def run(ctx):
